@@ -9,12 +9,14 @@ Import ListNotations.
 (* wasm assembleBranchFinally: branch := root ? name+"\n" : branch+" "+name+"\n" *)
 Definition wasm_branch (d : nat) (g : gtree) : str := line_of d g.
 
-Definition wasm_text (g : gtree) : str :=
-  concat (map (fun dg => wasm_branch (fst dg) (snd dg)) (gpre 1 g)).
+(* [baked] = the default grower ran; with the nop grower (encoding options) every
+   branch stays empty *)
+Definition wasm_text (baked : bool) (g : gtree) : str :=
+  if baked then concat (map (fun dg => wasm_branch (fst dg) (snd dg)) (gpre 1 g)) else [].
 
 (* colorizeSpreader.spread: "%s\n%s" with summary ending in "\n" *)
-Definition wasm_dry_block (exts : list str) (g : gtree) : str :=
-  wasm_text g ++ [c_lf] ++ (summary exts g ++ [c_lf]).
+Definition wasm_dry_block (baked : bool) (exts : list str) (g : gtree) : str :=
+  wasm_text baked g ++ [c_lf] ++ (summary exts g ++ [c_lf]).
 
 (* with an encoding option the wasm build installs the nop grower; only JSON has
    a spreader of its own, anything else falls back to the default spreader *)
@@ -27,7 +29,7 @@ Definition wasm_output (c : cfg) (input : str) : list chunk * res unit :=
       | Err e => ([], Err e)
       | Panic => ([], Panic)
       | Ok gs =>
-          if c_dry c then ([CText (concat (map (wasm_dry_block (c_exts c)) gs))], Ok tt)
+          if c_dry c then ([CText (concat (map (wasm_dry_block (is_default (c_enc c)) (c_exts c)) gs))], Ok tt)
           else match c_enc c with
                | EncJSON =>
                    match enc_chunks EncJSON gs with
@@ -35,7 +37,7 @@ Definition wasm_output (c : cfg) (input : str) : list chunk * res unit :=
                    | Err e => ([], Err e)
                    | Panic => ([], Panic)
                    end
-               | EncDefault => ([CText (concat (map wasm_text gs))], Ok tt)
+               | EncDefault => ([CText (concat (map (wasm_text true) gs))], Ok tt)
                | _ => ([CText []], Ok tt)
                end
       end
